@@ -117,6 +117,7 @@ finding("C05-brace-range-resplit", "C05", "same for `{1..3}`",
 finding("C05-dq-star-empty-ifs", "C05", "`\"$*\"` with IFS='' joins the positional parameters with a space instead of nothing",
         all=["piece:dq-star", "ifs:empty"])
 
+fixed("C05", "expands to nothing and whose other expansions are empty vanishes", "`set --; v=; f \"$v$@\"` passed one empty argument, bash none")
 # ---------------------------------------------------------------------------------------------- C06
 finding("C06-tilde-case-toggle", "C06", "`${v~}` / `${v~~}` are not recognised (printed literally)",
         all=["form:${v~}"])
